@@ -297,6 +297,36 @@ func runC02(o *opts) (*summary, error) {
 				})
 			}
 		}
+		// (2c) ... and each special pattern with ONE byte of it replaced by a non-decimal or out-of-range value (a "no value"
+		// date in front of a time of day that is no time of day, ...): the shortcut taken for the pattern must not skip
+		// the validation of the rest of the field
+		for _, f := range lt.Rsp[op].Fields {
+			f := f
+			switch f.Kind {
+			case "date", "datetime", "sysdate", "systime", "hhmm", "hhmmp":
+			default:
+				continue
+			}
+			for _, pat := range specialPatterns(width(f.Kind)) {
+				for i := 0; i < width(f.Kind); i++ {
+					for _, bad := range []byte{0x3a, 0xa0, 0xff, 0x99} {
+						pat, i, bad := pat, i, bad
+						run(op, serialOf(), "field-special-corrupt", func(l layout, req []byte) []byte {
+							m := l.message(rng, som(op), req[4:8], "valid", nil)
+							if op == "GetCardByID" {
+								copy(m[8:12], req[8:12])
+							}
+							if op == "GetTimeProfile" {
+								m[8] = req[8]
+							}
+							copy(m[f.Off:], pat)
+							m[f.Off+i] = bad
+							return m
+						})
+					}
+				}
+			}
+		}
 		// (3) every byte of every field over all 256 values, the rest valid
 		step := 1
 		for _, off := range lt.Rsp[op].fieldOffsets() {
